@@ -92,7 +92,27 @@ class NumpyProxy(types.ModuleType):
         ov = self.__dict__['_ov']
         if name in ov and active():
             return ov[name]
+        if name == 'pi' and active():
+            from .number import ctx
+            c = ctx()
+            if getattr(c, 'symbolic_pi', False):
+                return symbolic_pi()
         return getattr(np, name)
+
+
+def symbolic_pi():
+    """pi as a symbolic real with a rational enclosure (used where the code multiplies and divides by pi and
+    the property is about that cancellation, not about the double closest to pi)"""
+    from .number import ctx, SymBool, _q
+    from .poly import Q
+    from fractions import Fraction
+    c = ctx()
+    v = getattr(c, '_pi', None)
+    if v is None:
+        v = c._pi = Sym(Q.var("PI", kind='const'))
+        c.axioms.append(SymBool.cmp('<', _q(Fraction(314159265, 10 ** 8)) - v.re))
+        c.axioms.append(SymBool.cmp('<', v.re - _q(Fraction(314159266, 10 ** 8))))
+    return v
 
 
 class _ShadowMeta(type):
